@@ -508,6 +508,16 @@ theorem unit2_enums_tied :
     Generated.Payload.annotationKinds = Tables.annotationKinds ∧ Generated.Payload.annotationMarkers = Tables.annotationMarkers := by
   decide +kernel
 
+/-- the tests that decide the optional parts of a section divider (reader: a sub type only behind signature and blend
+mode, since repo commit f04fc34) -/
+theorem section_divider_conditions_tied : Generated.Payload.sectionDividerConditions = Tables.sectionDividerConditions := by
+  decide +kernel
+
+/-- an 8-byte block (kind + 4 more bytes) is read as the kind alone: the reader no longer takes a sub type that the writer
+could not have stored (it did before f04fc34) -/
+theorem section_divider_eight_bytes_no_sub_type :
+    SectionDividerSetting.codec.dec [0, 0, 0, 1, 0, 0, 0, 5] 0 = .ok (⟨1, none, none, none⟩, 4) := by decide +kernel
+
 /-- which key of `tagged_blocks.TYPES` holds which of the modelled classes -/
 theorem unit2_registry_tied : Generated.Payload.unit2Registry = Tables.unit2Registry := by decide +kernel
 
